@@ -65,8 +65,8 @@ def unpivot(unpivot_fields, extra_keys, extra_value, regex=True, resources=None)
                     for key in original_key_values:
                         new_val = original_key_values[key]
                         if regex and isinstance(new_val, str):
-                            new_val = re.sub(
-                                u_field['name'], new_val, field_to_pivot['name'])
+                            # the same full match that selected the field
+                            new_val = field_name_re.fullmatch(field_to_pivot['name']).expand(new_val)
                         new_key_values[key] = new_val
                     field_to_pivot['keys'] = new_key_values
                     config['unpivot_fields_without_regex'].append(field_to_pivot)
